@@ -92,10 +92,30 @@ def updBlockIndexError : List DNode → List OParam → Bool
   | .item cs :: r, vs => vs.length < multiple cs || vs.isEmpty || updBlockIndexError r (vs.drop (multiple cs))
   | _ :: r, vs => updBlockIndexError r vs
 
-/-- the BLOCK branch of `OmegaRecord.update` (after the scale conversion); `none` = `_block_flags` raised -/
-def updBlock (r : List DNode) (vals : List OParam) (newFix : Bool) : Except BErr (List DNode) :=
+/-- `written`: the token value of every `omega` node, repeated n times for `(v)xn` -/
+def writtenVals : List DNode → List Val
+  | [] => []
+  | .item cs :: r => List.replicate (multiple cs) ((valK .init cs).getD zero) ++ writtenVals r
+  | _ :: r => writtenVals r
+
+/-- fix f0abfd5: `array = [cur if new == old else new for cur, new, old in zip(written, array, old_array)]`;
+    `writtenS` are Python's spellings of the written values (needed only when a kept value lands on a
+    split copy whose carried node holds another number) -/
+def mergeKept : List Val → List String → List OParam → List Val → List OParam
+  | w :: ws, s :: ss, n :: ns, o :: os =>
+    (if n.raw = o then { raw := w, rawS := s, fix := n.fix } else n) :: mergeKept ws ss ns os
+  | _, _, _, _ => []
+
+/-- the values handed to the per-node loop: `news` = `to_record_scale(new inits)`,
+    `olds` = `to_record_scale(self.parse()[0][1])`; kept values only `if len(old_inits) == len(inits)` -/
+def blockArray (r : List DNode) (writtenS : List String) (news : List OParam) (olds : List Val) : List OParam :=
+  if olds.length = news.length then mergeKept (writtenVals r) writtenS news olds else news
+
+/-- the BLOCK branch of `OmegaRecord.update` (after the scale conversions); error = `_block_flags` raised -/
+def updBlock (r : List DNode) (writtenS : List String) (news : List OParam) (olds : List Val) (newFix : Bool) :
+    Except BErr (List DNode) :=
   match blockFix r with
   | .error e => .error e
-  | .ok fix => .ok (setBlockFix fix (updBlockVals r vals) newFix)
+  | .ok fix => .ok (setBlockFix fix (updBlockVals r (blockArray r writtenS news olds)) newFix)
 
 end Pharmpy.C04
